@@ -47,6 +47,8 @@ def strategy(tier):
         "prior": st.sampled_from([None, None, "non-recursive", "other-prefix"]),
         # a symbolic link 'zz_alias' to the first subdirectory, with input.follow_symlinks off (default) or on
         "alias": st.sampled_from([None, None, "nofollow", "follow"]),
+        # the input directory is given through a symbolic link with a name of its own (the default prefix is the name given)
+        "inlink": st.sampled_from([False, False, True]),
     })
 
 
@@ -72,15 +74,23 @@ def evaluate(case):
     with S.Sandbox("c14") as sb:
         inp = sb.path("in")
         S.materialize(tree, inp)
+        inname = "in"
+        if case.get("inlink"):
+            inname = "cmake_modules"
+            os.symlink("in", sb.path(inname))
+            inp = sb.path(inname)
+            res.labels.append("input-is-a-symlink")
         alias = case.get("alias") if tree["dirs"] else None
         if alias:
             import copy
             target = sorted(tree["dirs"])[0]
             os.symlink(target, os.path.join(inp, "zz_alias"))
+            os.symlink(target, os.path.join(inp, "zz_alias2"))       # two links, adjacent in sorted listings
             res.labels.append("symlinked-directory:" + alias)
             if alias == "follow":
                 # followed links are ordinary directories with the target's content; links that are not followed are not processed
-                tree = {"files": tree["files"], "dirs": dict(tree["dirs"], zz_alias=copy.deepcopy(tree["dirs"][target]))}
+                tree = {"files": tree["files"], "dirs": dict(tree["dirs"], zz_alias=copy.deepcopy(tree["dirs"][target]),
+                                                              zz_alias2=copy.deepcopy(tree["dirs"][target]))}
         cwd = sb.path("cwd")
         pats = C15.build_patterns(case, tree, inp)
         plist = [p for p, _ in pats]
@@ -127,7 +137,7 @@ def evaluate(case):
         files = {p for p, v in got.items() if v[0] == "file"}
         indexes = {p for p in files if os.path.basename(p) == "index.rst"}
         pages = files - indexes
-        prefix = case["prefix"] if case["prefix"] is not None else "in"
+        prefix = case["prefix"] if case["prefix"] is not None else inname
         if "index.rst" not in indexes:
             res.fail("top-index-missing", f"no index.rst at the top of the output; files {sorted(files)[:6]}")
             return res
